@@ -10,7 +10,8 @@ RULE = ("every method flagged symplectic (3 splitting schemes, Gauss-Legendre 4/
         "(harmonic, pendulum, Henon-Heiles, quartic; 1 and 2 degrees of freedom; interleaved and block variable orderings = different kick "
         "masks) x random states x steps of either sign: Jacobian of the one-step map by central differences vs M^T J M = J, a step of h "
         "followed by -h, energy over long fixed-step runs. The splitting step itself is tied to the Lean model by C02's exact correspondence "
-        "(re-run here). non-trivial = nonlinear Hamiltonian; distinct by (method, Hamiltonian, ordering, state, h)")
+        "(re-run here). The splitting schemes additionally with ONE integrator object reused through __call__ for every evaluation (forth, back, "
+        "finite-difference neighbours). non-trivial = nonlinear Hamiltonian; distinct by (method, Hamiltonian, ordering, state, h)")
 ASSUMPTIONS = ["finite-difference Jacobians: symplecticity residual judged at 1e-6 (explicit) / 1e-5 (implicit)"]
 
 
@@ -56,6 +57,17 @@ def one_step(cls, rhs, mask, y, h, split):
     return (y + np.array(integ.dState)) if ok else None
 
 
+class Reused:
+    """one integrator object driven through its public __call__ for every evaluation (step, finite-difference neighbours, the way
+    back): an integrator that carries anything from one call into the next shows up here and not with fresh objects"""
+    def __init__(self, cls, n, mask):
+        self.integ = cls((n,), dtype=np.float64, staggered_mask=mask)
+
+    def step(self, rhs, t, y, h):
+        _, (dT, dS) = self.integ(rhs, np.float64(t), y.copy(), {}, np.float64(h))
+        return y + np.array(dS)
+
+
 def run(ctx):
     rng = ctx.rng
     methods = [(I.SymplecticEulerSolver, True), (I.BABs9o7HSolver, True), (I.ABAs5o6HSolver, True),
@@ -63,6 +75,7 @@ def run(ctx):
     flagged = sorted(c.__name__ for c in I.explicit_methods() + I.implicit_methods() if c.symplectic)
     ctx.corr("symplectic-flag-registry", flagged == sorted(c.__name__ for c, _ in methods), dict(flagged=flagged))
     reps = 2 if ctx.quick() else 10
+    ctx_reused = {}
     for cls, split in methods:
         for (hname, dof, gT, gV, H) in hamiltonians():
             for ordering in (["block"] if dof == 1 else ["block", "interleaved"]):
@@ -102,6 +115,28 @@ def run(ctx):
                         back = float(np.max(np.abs(y2 - y)))
                         ctx.oracle("time-reversible", back <= (1e-12 if split else 1e-9), dict(inp, defect=back),
                                    what="a step of h followed by a step of -h misses the start by %.2e" % back)
+                    if split:
+                        # the same checks with ONE integrator object through __call__: forth from t=0 and back from t=h, state after state
+                        R = ctx_reused.setdefault((cls.__name__, hname, ordering), Reused(cls, n, mask))
+                        z1 = R.step(rhs, 0.0, y, h)
+                        z2 = R.step(rhs, h, z1, -h)
+                        ctx.oracle("time-reversible", float(np.max(np.abs(z2 - y))) <= 1e-12, dict(inp, mode="reused-integrator", defect=float(np.max(np.abs(z2 - y)))),
+                                   what="reused integrator: a step of h followed by a step of -h misses the start by %.2e" % float(np.max(np.abs(z2 - y))))
+                        ctx.oracle("step-independent-of-history", float(np.max(np.abs(z1 - y1))) <= 1e-13, dict(inp, mode="reused-integrator", defect=float(np.max(np.abs(z1 - y1)))),
+                                   what="the step of a reused integrator differs from the step of a fresh one by %.2e" % float(np.max(np.abs(z1 - y1))))
+                        M2 = np.zeros((n, n))
+                        for k in range(n):
+                            e = np.zeros(n)
+                            e[k] = eps
+                            yp = R.step(rhs, 0.0, y + e, h)
+                            R.step(rhs, h, yp, -h)
+                            ym = R.step(rhs, 0.0, y - e, h)
+                            R.step(rhs, h, ym, -h)
+                            M2[:, k] = (yp - ym) / (2 * eps)
+                        resid2 = float(np.max(np.abs(M2.T @ Jm @ M2 - Jm)))
+                        ctx.oracle("step-map-symplectic", resid2 <= 1e-6, dict(inp, mode="reused-integrator", residual=resid2),
+                                   what="reused integrator: max |M^T J M - J| = %.2e for the one-step map" % resid2)
+                        ctx.count("mode:reused-integrator")
                     if hname != "harmonic":
                         ctx.nontrivial((cls.__name__, hname, ordering, tuple(float(v) for v in y), h))
                     ctx.count("method:" + cls.__name__)
